@@ -108,11 +108,11 @@ class MTree:
 
     @property
     def typed(self) -> bool:
-        return self.flavour in ("typed", "tsub")
+        return self.flavour in ("typed", "tsub", "thook")
 
     @property
     def hook(self) -> bool:
-        return self.flavour == "hook"
+        return self.flavour in ("hook", "thook")
 
     def rule(self, data):
         """C02: data_id = explicit, else the tree's id callback, else hash(data)."""
